@@ -177,7 +177,7 @@ func subscriptionRecurseSearch(root *node, levels []string, publishID uintptr, p
 			n.getSubscribers(publishID, p)
 		}
 	} else {
-		if n, ok := root.children[topicstypes.MWC]; ok && len(levels[0]) != 0 {
+		if n, ok := root.children[topicstypes.MWC]; ok && (root.parent != nil || len(levels[0]) != 0) {
 			n.getSubscribers(publishID, p)
 		}
 
